@@ -431,3 +431,72 @@ func HarnessC06_Notify() {
 	vfQuiesce()
 	vfCover("c06-notify-done")
 }
+
+// HarnessC06_MixedState: a well-formed full-state blob that mixes good pairs
+// with one pair the receiver cannot use (unknown codec, or known codec with an
+// undecodable value) at any position: the unusable pair is dropped, every other
+// pair is merged and announced to watchers.
+func init() { vfRegisterBubble("HarnessC06_MixedState", HarnessC06_MixedState) }
+
+func HarnessC06_MixedState() {
+	vfSetNow(vfEpoch + 100)
+	wc := &vfWireCodec{}
+	nd := vfClusterNode(2, wc)
+	ctx, cancel := context.WithCancel(context.Background())
+	var mu sync.Mutex
+	seenKeys := map[string]int{}
+	go nd.kv.WatchPrefix(ctx, "", wc, func(k string, v interface{}) bool {
+		mu.Lock()
+		seenKeys[k]++
+		mu.Unlock()
+		return true
+	})
+	vfQuiesce()
+	ts1, ts2 := vfI64("ts1"), vfI64("ts2")
+	vfAssume(vfAnd(vfAnd(ts1 >= 1, ts1 <= 1000), vfAnd(ts2 >= 1, ts2 <= 1000)))
+	enc := func(v *vfLWW) []byte { b, _ := wc.Encode(v); return b }
+	good1 := KeyValuePair{Key: "k1", Value: enc(&vfLWW{m: map[string]vfEntry{"a": {ts: ts1}}}), Codec: wc.CodecID()}
+	good2 := KeyValuePair{Key: "k2", Value: enc(&vfLWW{m: map[string]vfEntry{"b": {ts: ts2}}}), Codec: wc.CodecID()}
+	bad := KeyValuePair{Key: "other", Value: []byte("opaque"), Codec: "codec-of-another-application"}
+	if vfChoice("bad_kind", 2) == 1 {
+		bad = KeyValuePair{Key: "k3", Value: []byte("not a handle"), Codec: wc.CodecID()} // known codec, undecodable value
+	}
+	pos := vfChoice("bad_position", 3)
+	var pairs []KeyValuePair
+	for i, g := range []KeyValuePair{good1, good2} {
+		if pos == i {
+			pairs = append(pairs, bad)
+		}
+		pairs = append(pairs, g)
+	}
+	if pos == 2 {
+		pairs = append(pairs, bad)
+	}
+	var blob []byte
+	for _, p := range pairs {
+		ser, err := p.Marshal()
+		vfAssert(err == nil, "C06 pair serialises")
+		n := len(ser)
+		blob = append(blob, byte(n>>24), byte(n>>16), byte(n>>8), byte(n))
+		blob = append(blob, ser...)
+	}
+	nd.kv.MergeRemoteState(blob, false)
+	vfQuiesce()
+	a := vfRaw(nd.kv, "k1")
+	b := vfRaw(nd.kv, "k2")
+	vfAssert(a != nil && b != nil, "C06 an unusable pair in a full-state exchange is dropped without affecting the other pairs")
+	if a != nil && b != nil {
+		vfAssert(vfAnd(a.m["a"].ts == ts1, b.m["b"].ts == ts2), "C06 the usable pairs of a full-state exchange are merged")
+	}
+	vfAssert(vfRaw(nd.kv, "other") == nil && vfRaw(nd.kv, "k3") == nil, "C06 an unusable pair changes no stored state")
+	mu.Lock()
+	n1, n2 := seenKeys["k1"], seenKeys["k2"]
+	mu.Unlock()
+	vfAssert(n1 > 0 && n2 > 0, "C06 watchers are called for every key merged from a full-state exchange")
+	cancel()
+	close(nd.kv.shutdown)
+	nd.kv.NamedService.StopAsync()
+	_ = nd.kv.NamedService.AwaitTerminated(context.Background())
+	vfQuiesce()
+	vfCover("c06-mixedstate-done")
+}
